@@ -36,6 +36,8 @@ def run(ctx):
                     kx, ky = P.sampled_key_tuples(rng, d, 2, max_len={1: 2, 2: 4, 3: 5, 4: 4, 5: 3}[d])
                 cases.append(('law3', [list(kx), list(ky)], []))
             groups.append({'u': u, 'opts': {}, 'cases': cases, 'revisit': 0})
+    from plans import mirrored_wrapper_groups
+    groups += mirrored_wrapper_groups(ctx, OPS)
     run_plan(ctx, groups)
     return ctx.finish(
         rule='case = (configuration, options, operator in {op,ip,lc,rc,sp,cp,acp}, ordered key tuples of both operands) run on '
